@@ -482,3 +482,131 @@ func ruleCountZero(c *Ctx) {
 	c.Floor("X.count.zero", 5)
 	_ = n
 }
+
+// ---------------------------------------------------------------------------
+// G.maxindex: plenctag never hands out an index above maxIndex. The counter
+// that is incremented and formatted into the new tag is forced to maxIndex:
+// the formatting call must then be unreachable (the "no index left" error is
+// taken instead). An off-by-one in that guard hands out maxIndex+1, which
+// plenc refuses.
+func ruleTagMaxIndex(c *Ctx) {
+	p := c.P
+	n := 0
+	for _, f := range plenctagFuncs(p) {
+		var maxK constant.Value
+		if f.Pkg != nil {
+			if k, ok := f.Pkg.Pkg.Scope().Lookup("maxIndex").(*types.Const); ok {
+				maxK = k.Val()
+			}
+		}
+		for _, b := range f.Blocks {
+			for _, in := range b.Instrs {
+				call, ok := in.(*ssa.Call)
+				if !ok {
+					continue
+				}
+				cal := call.Common().StaticCallee()
+				if cal == nil || cal.Pkg == nil || cal.Pkg.Pkg.Path() != "strconv" || (cal.Name() != "Itoa" && cal.Name() != "FormatInt") {
+					continue
+				}
+				// the formatted value is (running maximum) + 1: as a register, or as a
+				// variable that is stored load+1 and loaded again
+				arg := stripConv(call.Common().Args[0])
+				var isBase func(v ssa.Value) bool
+				if bo, ok := arg.(*ssa.BinOp); ok && bo.Op == token.ADD {
+					base := bo.X
+					if k, isK := bo.X.(*ssa.Const); isK && k.Value != nil {
+						base = bo.Y
+					}
+					isBase = func(v ssa.Value) bool { return v == base }
+				} else if ld, ok := arg.(*ssa.UnOp); ok && ld.Op == token.MUL {
+					addr := ld.X
+					incremented := false
+					for _, b2 := range f.Blocks {
+						for _, in2 := range b2.Instrs {
+							if st, ok := in2.(*ssa.Store); ok && st.Addr == addr {
+								if bo, ok := st.Val.(*ssa.BinOp); ok && bo.Op == token.ADD {
+									if l2, ok := bo.X.(*ssa.UnOp); ok && l2.X == addr {
+										incremented = true
+									}
+								}
+							}
+						}
+					}
+					if incremented {
+						isBase = func(v ssa.Value) bool {
+							u, ok := v.(*ssa.UnOp)
+							return ok && u.Op == token.MUL && u.X == addr && u != ld
+						}
+					}
+				}
+				if isBase == nil {
+					continue
+				}
+				n++
+				good := false
+				if maxK != nil {
+					fe := feasibleUnder(f, func(v ssa.Value) (constant.Value, bool) {
+						if isBase(v) {
+							return maxK, true
+						}
+						return nil, false
+					})
+					good = fe.sawLeaf && !fe.reach[call.Block()]
+				}
+				c.Oblige("G.maxindex", good, call.Pos(), ssaFuncName(f), "no index above maxIndex is handed out",
+					"with the running maximum forced to maxIndex the new index must not be formatted: the guard in front of the increment has to refuse at maxIndex itself (>=), otherwise maxIndex+1 is written and plenc rejects the struct", nil)
+			}
+		}
+	}
+	if n == 0 {
+		c.Oblige("G.maxindex", false, token.NoPos, "cmd/plenctag", "increment-and-format of the running maximum", "not found: the rule no longer sees the code it was written for", nil)
+	}
+	c.Floor("G.maxindex", 1)
+}
+
+// ---------------------------------------------------------------------------
+// X.bytes.nil: what BytesCodec.Read stores for an empty body is the nil slice
+// (append onto nil), not an empty non-nil one: a nil []byte inside [][]byte or
+// behind *[]byte is written with length 0 and must read back nil - the
+// documented normalisation goes from empty to nil, not the other way.
+func ruleBytesNil(c *Ctx) {
+	name := "plenccodec.BytesCodec.Read"
+	f := c.P.ssaFunc(name)
+	if f == nil {
+		c.Oblige("X.bytes.nil", false, token.NoPos, name, "function", "not found", nil)
+		return
+	}
+	var data ssa.Value
+	for _, prm := range f.Params {
+		if isByteSlice(prm.Type()) {
+			data = prm
+		}
+	}
+	n := 0
+	for _, b := range f.Blocks {
+		for _, in := range b.Instrs {
+			st, ok := in.(*ssa.Store)
+			if !ok || !isByteSlice(st.Val.Type()) {
+				continue
+			}
+			n++
+			good := false
+			if call, ok := st.Val.(*ssa.Call); ok {
+				if bi, ok := call.Common().Value.(*ssa.Builtin); ok && bi.Name() == "append" && len(call.Common().Args) == 2 {
+					k, isK := call.Common().Args[0].(*ssa.Const)
+					good = isK && k.Value == nil && call.Common().Args[1] == data
+				}
+			}
+			if k, isK := st.Val.(*ssa.Const); isK && k.Value == nil {
+				good = true // an explicit nil for the empty case
+			}
+			c.Oblige("X.bytes.nil", good, st.Pos(), name, "the stored slice is append(nil, data...)",
+				"an empty body must read back as the nil slice: a copy made with make+copy (or appended to a non-nil empty slice) turns nil into empty for [][]byte elements and *[]byte targets", nil)
+		}
+	}
+	if n == 0 {
+		c.Oblige("X.bytes.nil", false, f.Pos(), name, "store of the decoded bytes", "not found", nil)
+	}
+	c.Floor("X.bytes.nil", 1)
+}
